@@ -72,7 +72,7 @@ type legacyForward struct {
 	Type string          `json:"@type,omitempty"`
 	ID   string          `json:"@id,omitempty"`
 	To   string          `json:"to,omitempty"`
-	Msg  *model.Envelope `json:"msg,omitempty"`
+	Msg  json.RawMessage `json:"msg,omitempty"`
 }
 
 var logger = log.New("aries-framework/didcomm/dispatcher")
@@ -432,12 +432,13 @@ func (o *Dispatcher) packForward(fwd model.Forward, toKeys []string, mtProfile s
 				return nil, err
 			}
 		}
-		// create legacy forward
+		// create legacy forward: the wrapped envelope is embedded as is (a JSON-serialized JWE has members,
+		// e.g. 'recipients', that model.Envelope does not have; dropping them makes the message unreadable)
 		forward = legacyForward{
 			Type: fwd.Type,
 			ID:   fwd.ID,
 			To:   fwd.To,
-			Msg:  env,
+			Msg:  json.RawMessage(fwd.Msg),
 		}
 	} else {
 		forward = fwd
